@@ -618,6 +618,19 @@ theorem encSet_inv (s s' : EncState) (op : CfgOp) (hi : EncInv s) (h : encSet s 
     simp only [Option.some.injEq] at h; subst h
     exact ⟨i1, i2, i3, i4, i5, fun hc => h1 hc⟩
 
+theorem encFail_inv (s : EncState) (op : CfgOp) (hi : EncInv s) : EncInv (encFail s op) := by
+  obtain ⟨i1, i2, i3, i4, i5, i6⟩ := hi
+  cases op with
+  | setRefrac r =>
+    cases r with
+    | none => exact ⟨i1, i2, i3, i4, i5, i6⟩
+    | some r =>
+      simp only [encFail]
+      split
+      · exact ⟨i1, i2, i3, i4, i5, i6⟩
+      · exact ⟨i1, i2, i3, i4, fun hd => by simp at hd, i6⟩
+  | _ => exact ⟨i1, i2, i3, i4, i5, i6⟩
+
 theorem encRun_inv (s : EncState) (ops : List CfgOp) (hi : EncInv s) : EncInv (encRun s ops) := by
   induction ops generalizing s with
   | nil => exact hi
@@ -627,6 +640,48 @@ theorem encRun_inv (s : EncState) (ops : List CfgOp) (hi : EncInv s) : EncInv (e
     unfold encStep
     split
     · rename_i s' h; exact encSet_inv s s' op hi h
-    · exact hi
+    · exact encFail_inv s op hi
+
+/-! ### float rounding cannot shrink the gap -/
+
+/-- cumulative sums with a rounding step after every addition (IEEE: round-to-nearest) -/
+def cumsumR (rnd : Rat → Rat) (acc : Rat) : List Rat → List Rat
+  | [] => []
+  | x :: xs => rnd (acc + x) :: cumsumR rnd (rnd (acc + x)) xs
+
+/-- Rounding cannot shrink the gap: for ANY monotone rounding that leaves integers alone, running
+sums of intervals `≥ k` (`k ∈ ℕ`) have floors at least `k` apart. -/
+theorem cumsumR_floor_sep (rnd : Rat → Rat) (hmono : ∀ a b, a ≤ b → rnd a ≤ rnd b)
+    (hint : ∀ n : Int, rnd (n : Rat) = (n : Rat)) (k : Nat) (acc : Rat) (l : List Rat)
+    (hl : ∀ x ∈ l, (k : Rat) ≤ x) :
+    (∀ t ∈ cumsumR rnd acc l, acc.floor + (k : Int) ≤ t.floor) ∧
+    (cumsumR rnd acc l).Pairwise (fun a b => a.floor + (k : Int) ≤ b.floor) := by
+  induction l generalizing acc with
+  | nil => simp [cumsumR]
+  | cons x xs ih =>
+    have hx : (k : Rat) ≤ x := hl x (by simp)
+    have hstep : acc.floor + (k : Int) ≤ (rnd (acc + x)).floor := by
+      rw [Rat.le_floor_iff]
+      have h1 : ((acc.floor + (k : Int) : Int) : Rat) ≤ acc + x := by
+        have := Rat.floor_le acc; push_cast; linarith
+      have := hmono _ _ h1
+      rwa [hint] at this
+    obtain ⟨h1, h2⟩ := ih (rnd (acc + x)) (fun y hy => hl y (by simp [hy]))
+    constructor
+    · intro t ht
+      simp only [cumsumR, List.mem_cons] at ht
+      rcases ht with rfl | h
+      · exact hstep
+      · have := h1 t h; omega
+    · simp only [cumsumR, List.pairwise_cons]
+      exact ⟨fun b hb => h1 b hb, h2⟩
+
+/-- the online decrement under rounding: an interval `≥ r` (`r ∈ ℤ`) stays `≥ r − 1` -/
+theorem rounded_decrement (rnd : Rat → Rat) (hmono : ∀ a b, a ≤ b → rnd a ≤ rnd b)
+    (hint : ∀ n : Int, rnd (n : Rat) = (n : Rat)) (r : Int) (iv : Rat) (h : (r : Rat) ≤ iv) :
+    ((r - 1 : Int) : Rat) ≤ rnd (iv - 1) := by
+  have h1 : ((r - 1 : Int) : Rat) ≤ iv - 1 := by push_cast; linarith
+  have := hmono _ _ h1
+  rwa [hint] at this
 
 end InfernoVerif.Enc
